@@ -593,12 +593,11 @@ class Visitor(ast.NodeVisitor):
 
             # Please see "NOTE ABOUT PLACEHOLDERS AND RE-COMPUTATION"
             #
-            # The remaining operands are still visited so that the values unrelated to the placeholders are collected.
+            # Once an operand is unknown, we do not know whether Python evaluates the remaining operands at all.
+            # They might be defined only if the unknown operand holds (or does not hold), so we must not visit them.
             if value is PLACEHOLDER:
                 has_placeholder = True
-
-            if has_placeholder:
-                continue
+                break
 
             result = value
 
@@ -629,12 +628,15 @@ class Visitor(ast.NodeVisitor):
         has_placeholder = left is PLACEHOLDER
 
         for i, (comparator_node, op) in enumerate(zip(node.comparators, node.ops)):
-            comparator = self.visit(node=comparator_node)
-
             # Please see "NOTE ABOUT PLACEHOLDERS AND RE-COMPUTATION"
             #
-            # The remaining comparators are still visited so that the values unrelated to the placeholders
-            # are collected.
+            # Python always evaluates the first comparator. Once an operand is unknown, we do not know whether
+            # Python evaluates the further comparators at all, so we must not visit them.
+            if has_placeholder and i > 0:
+                break
+
+            comparator = self.visit(node=comparator_node)
+
             if comparator is PLACEHOLDER:
                 has_placeholder = True
 
